@@ -201,11 +201,13 @@ pub struct Scenario {
     /// only chain 0 is flushed (chain 1 then has no guarantee)
     pub flush_first_chain_only: bool,
     pub div_mask: u32,
+    /// `store_warmup` option of the writer (false: only the sampling phase is stored)
+    pub store_warmup: bool,
 }
 
 impl Scenario {
     fn name(&self) -> String {
-        format!("{:?}/{:?}/a{}b{}/chains{}/chunk{}/flush{:b}{}/div{:b}", self.writer, self.preset, self.a, self.b, self.chains, self.chunk, self.flush_mask, if self.flush_first_chain_only { "-chain0only" } else { "" }, self.div_mask)
+        format!("{:?}/{:?}/a{}b{}/chains{}/chunk{}/flush{:b}{}/div{:b}", self.writer, self.preset, self.a, self.b, self.chains, self.chunk, self.flush_mask, if self.flush_first_chain_only { "-chain0only" } else { "" }, self.div_mask) + if self.store_warmup { "" } else { "/nowarmup" }
     }
     fn group(&self) -> String {
         let w = match self.writer {
@@ -224,7 +226,7 @@ struct Schema {
 }
 
 /// first mismatch between what a fresh reader sees and the first `upto[c]` recorded rows of chain c
-fn mismatch(schema: &Schema, rows: &[Vec<RRow>], upto: &[usize], rb: &ReadBack) -> Option<String> {
+fn mismatch(schema: &Schema, rows: &[Vec<RRow>], upto: &[usize], rb: &ReadBack, store_warmup: bool) -> Option<String> {
     for (c, chain_rows) in rows.iter().enumerate() {
         let recorded = &chain_rows[..upto[c]];
         let vars: Vec<(bool, String, bool)> = schema.stats.iter().map(|(n, _, e)| (true, n.clone(), *e)).chain(schema.draws.iter().map(|(n, _)| (false, n.clone(), false))).collect();
@@ -233,6 +235,9 @@ fn mismatch(schema: &Schema, rows: &[Vec<RRow>], upto: &[usize], rb: &ReadBack) 
                 continue;
             }
             for (phase, subset) in [("warmup", recorded.iter().filter(|r| r.tuning).collect::<Vec<_>>()), ("sample", recorded.iter().filter(|r| !r.tuning).collect::<Vec<_>>())] {
+                if phase == "warmup" && !store_warmup {
+                    continue;
+                }
                 let exp: Vec<Option<Vec<Cell>>> = subset
                     .iter()
                     .map(|r| {
@@ -338,7 +343,7 @@ fn drive<S: Settings>(sc: &Scenario, settings: &S, math: &CpuMath<RichDens>, sch
                     p.count("crash_points", 1);
                     p.states += 1;
                     let rb: ReadBack = snapshot()?;
-                    if let Some(d) = mismatch(schema, rows, &flushed, &rb) {
+                    if let Some(d) = mismatch(schema, rows, &flushed, &rb, sc.store_warmup) {
                         return Ok(Some(("flushed-data-corrupted-by-later-recording".to_string(), format!("after recording row {k}: {d}"))));
                     }
                 }
@@ -359,7 +364,7 @@ fn drive<S: Settings>(sc: &Scenario, settings: &S, math: &CpuMath<RichDens>, sch
                     p.states += 1;
                     p.count("flush_points", 1);
                     let rb: ReadBack = snapshot()?;
-                    if let Some(d) = mismatch(schema, rows, &flushed, &rb) {
+                    if let Some(d) = mismatch(schema, rows, &flushed, &rb, sc.store_warmup) {
                         return Ok(Some(("incomplete-after-flush".to_string(), format!("after the flush that follows row {k}: {d}"))));
                     }
                 }
@@ -375,7 +380,7 @@ fn drive<S: Settings>(sc: &Scenario, settings: &S, math: &CpuMath<RichDens>, sch
                     p.count("crash_points", 1);
                     p.states += 1;
                     let rb: ReadBack = snapshot()?;
-                    if let Some(d) = mismatch(schema, rows, &flushed, &rb) {
+                    if let Some(d) = mismatch(schema, rows, &flushed, &rb, sc.store_warmup) {
                         return Ok(Some(("flushed-data-corrupted-by-finalisation".to_string(), format!("after finalising a chain: {d}"))));
                     }
                 }
@@ -391,7 +396,7 @@ fn drive<S: Settings>(sc: &Scenario, settings: &S, math: &CpuMath<RichDens>, sch
             p.count("crash_points", 1);
                     p.states += 1;
             let rb: ReadBack = snapshot()?;
-            if let Some(d) = mismatch(schema, rows, &vec![n; sc.chains], &rb) {
+            if let Some(d) = mismatch(schema, rows, &vec![n; sc.chains], &rb, sc.store_warmup) {
                 return Ok(Some(("incomplete-after-finalize".to_string(), d)));
             }
         }};
@@ -399,7 +404,7 @@ fn drive<S: Settings>(sc: &Scenario, settings: &S, math: &CpuMath<RichDens>, sch
     match sc.writer {
         Writer::SyncMem => {
             let m = Arc::new(zarrs::storage::store::MemoryStore::new());
-            let trace = ZarrConfig::new(m.clone()).with_chunk_size(sc.chunk).new_trace(settings, math).map_err(e2s)?;
+            let trace = ZarrConfig::new(m.clone()).with_chunk_size(sc.chunk).store_warmup(sc.store_warmup).new_trace(settings, math).map_err(e2s)?;
             let snapshot = || -> Result<ReadBack, String> {
                 let reader: Arc<dyn zarrs::storage::ReadableListableStorageTraits> = m.clone();
                 read_zarr_sync(reader, &schema.stats, &schema.draws, sc.chains)
@@ -409,7 +414,7 @@ fn drive<S: Settings>(sc: &Scenario, settings: &S, math: &CpuMath<RichDens>, sch
         Writer::SyncFs => {
             let tmp = tempfile::tempdir_in(mc_core::verif_root().join(".build")).map_err(|e| e.to_string())?;
             let s = Arc::new(zarrs::filesystem::FilesystemStore::new(tmp.path()).map_err(|e| e.to_string())?);
-            let trace = ZarrConfig::new(s.clone()).with_chunk_size(sc.chunk).new_trace(settings, math).map_err(e2s)?;
+            let trace = ZarrConfig::new(s.clone()).with_chunk_size(sc.chunk).store_warmup(sc.store_warmup).new_trace(settings, math).map_err(e2s)?;
             let path = tmp.path().to_path_buf();
             let snapshot = || -> Result<ReadBack, String> {
                 // a new store object over the directory: nothing cached by the writer's store is used
@@ -425,7 +430,7 @@ fn drive<S: Settings>(sc: &Scenario, settings: &S, math: &CpuMath<RichDens>, sch
             let os = Arc::new(object_store::memory::InMemory::new());
             let gate = Arc::new(Gate::new(if hold == 255 { u64::MAX } else { hold as u64 }, sel));
             let store = Arc::new(GateStore { inner: zarrs_object_store::AsyncObjectStore::new(os.clone()), gate: gate.clone() });
-            let trace = ZarrAsyncConfig::new(rt.handle().clone(), store).with_chunk_size(sc.chunk).new_trace(settings, math).map_err(e2s)?;
+            let trace = ZarrAsyncConfig::new(rt.handle().clone(), store).with_chunk_size(sc.chunk).store_warmup(sc.store_warmup).new_trace(settings, math).map_err(e2s)?;
             let snapshot = || -> Result<ReadBack, String> {
                 let mem = Arc::new(zarrs::storage::store::MemoryStore::new());
                 rt.block_on(crate::c14::futures_lite_shim::copy_object_store(os.clone(), mem.clone()))?;
@@ -442,7 +447,7 @@ fn drive<S: Settings>(sc: &Scenario, settings: &S, math: &CpuMath<RichDens>, sch
             let os = Arc::new(object_store::memory::InMemory::new());
             let gate = Arc::new(Gate::failing(at as u64));
             let store = Arc::new(GateStore { inner: zarrs_object_store::AsyncObjectStore::new(os.clone()), gate: gate.clone() });
-            let trace = ZarrAsyncConfig::new(rt.handle().clone(), store).with_chunk_size(sc.chunk).new_trace(settings, math).map_err(e2s)?;
+            let trace = ZarrAsyncConfig::new(rt.handle().clone(), store).with_chunk_size(sc.chunk).store_warmup(sc.store_warmup).new_trace(settings, math).map_err(e2s)?;
             let snapshot = || -> Result<ReadBack, String> {
                 let mem = Arc::new(zarrs::storage::store::MemoryStore::new());
                 rt.block_on(crate::c14::futures_lite_shim::copy_object_store(os.clone(), mem.clone()))?;
@@ -745,13 +750,31 @@ pub fn run(tier: Tier, _replay: Option<String>) -> i32 {
                                     continue;
                                 }
                                 let div_mask = if n >= 2 { 0b10 } else { 0 };
-                                scs.push(Scenario { preset, writer, a, b, chains, chunk, flush_mask, flush_first_chain_only: false, div_mask });
+                                scs.push(Scenario { preset, writer, a, b, chains, chunk, flush_mask, flush_first_chain_only: false, div_mask, store_warmup: true });
                                 if chains == 2 && flush_mask != 0 && writer == Writer::SyncMem {
-                                    scs.push(Scenario { preset, writer, a, b, chains, chunk, flush_mask, flush_first_chain_only: true, div_mask });
+                                    scs.push(Scenario { preset, writer, a, b, chains, chunk, flush_mask, flush_first_chain_only: true, div_mask, store_warmup: true });
                                 }
                             }
                         }
                     }
+                }
+            }
+        }
+    }
+    // the writers' store_warmup(false) option: warmup rows are recorded but not stored, the
+    // sampling rows have to be complete at every flush point all the same
+    for writer in [Writer::SyncMem, Writer::SyncFs, Writer::Async { hold: 0, sel: 0 }, Writer::Async { hold: 1, sel: 0 }] {
+        for (a, b) in [(1usize, 1usize), (1, 2), (2, 1), (2, 3), (3, 2), (0, 3)] {
+            let n = a + b;
+            for chunk in [1u64, 2, 3] {
+                for flush_mask in 0..(1u32 << n) {
+                    if writer == Writer::SyncFs && (chunk != 2 || flush_mask.count_ones() > 2) {
+                        continue;
+                    }
+                    if n == 5 && flush_mask.count_ones() > 2 {
+                        continue;
+                    }
+                    scs.push(Scenario { preset: Preset::DiagNuts, writer, a, b, chains: 1, chunk, flush_mask, flush_first_chain_only: false, div_mask: if n >= 2 { 0b10 } else { 0 }, store_warmup: false });
                 }
             }
         }
@@ -762,7 +785,7 @@ pub fn run(tier: Tier, _replay: Option<String>) -> i32 {
         for chunk in [1u64, 2] {
             for flush_mask in [0u32, 0b100, 0b111] {
                 for at in 0..tier.pick(160u16, 400) {
-                    scs.push(Scenario { preset: Preset::DiagNuts, writer: Writer::AsyncFail { at }, a, b, chains: 1, chunk, flush_mask, flush_first_chain_only: false, div_mask: 0 });
+                    scs.push(Scenario { preset: Preset::DiagNuts, writer: Writer::AsyncFail { at }, a, b, chains: 1, chunk, flush_mask, flush_first_chain_only: false, div_mask: 0, store_warmup: true });
                 }
             }
         }
